@@ -2,6 +2,7 @@ package main
 
 import (
 	"fmt"
+	"os"
 	"go/constant"
 	"go/token"
 	"go/types"
@@ -418,6 +419,9 @@ func (st *State) checkEnsures(fr *Frame, results []SVal) {
 		}
 	}
 	env := st.unitEnv(fr, results)
+	if os.Getenv("GOVC_PATHS") != "" {
+		fmt.Fprintf(os.Stderr, "PATH %s %s: %s\n", u.name, site, strings.Join(st.trace, " "))
+	}
 	st.beginBatch()
 	defer st.endBatch()
 	for i, c := range u.c.Ensures {
@@ -809,6 +813,7 @@ func (st *State) execInstrs(fr *Frame, b *ssa.BasicBlock, i int) {
 		switch x := in.(type) {
 		case *ssa.If:
 			c := st.scalar(st.val(fr, x.Cond))
+			c = st.foldKnown(c)
 			if isTrue(c) {
 				st.execBlock(fr, b.Succs[0], b)
 				return
@@ -875,6 +880,24 @@ func (st *State) execInstrs(fr *Frame, b *ssa.BasicBlock, i int) {
 			}
 		}
 	}
+}
+
+// foldKnown decides branch conditions of the form x == 0 / x != 0 for values known to be non-zero on
+// this path (freshly produced errors, allocated references): infeasible continuations are not explored.
+func (st *State) foldKnown(c *Term) *Term {
+	s := c.S
+	neg := false
+	if strings.HasPrefix(s, "(not ") {
+		neg = true
+		s = s[5 : len(s)-1]
+	}
+	if strings.HasPrefix(s, "(= ") && strings.HasSuffix(s, " 0)") {
+		x := s[3 : len(s)-3]
+		if st.nonzero[x] || st.freshRefs[x] {
+			return BoolLit(neg)
+		}
+	}
+	return c
 }
 
 // panicAt records a potential panic. cond is the condition under which the
